@@ -218,6 +218,63 @@ def run_history(ctx, rng, nops, script=None):
     return hist, problems, (iter_before_edit and iter_after_edit)
 
 
+SEP_EDITS = ["rotate", "swap", "shift", "set_separable", "set_coupled", "insert_frame", "query"]
+
+
+def separable_history(ctx, rng, nops, script=None):
+    """a separable (axis-by-axis) WCS: edits that couple or uncouple the axes must show at once in every derived answer
+    (axis_correlation_matrix, the grouping used by to_fits, evaluation), each compared with a freshly built twin"""
+    import astropy.units as u
+    from astropy.modeling import models
+    from gwcs import wcs, coordinate_frames as cf
+    det = cf.CoordinateFrame(2, ("PIXEL",) * 2, (0, 1), unit=(u.pix,) * 2, name="detector")
+    foc = cf.CoordinateFrame(2, ("SPATIAL",) * 2, (0, 1), unit=(u.mm,) * 2, name="focal")
+    out = cf.CoordinateFrame(2, ("SPECTRAL", "TIME"), (0, 1), unit=(u.um, u.s), name="world", axes_names=("lam", "t"),
+                             axis_physical_types=("em.wl", "time"))
+    w = wcs.WCS([(det, models.Shift(1.0) & models.Shift(2.0)), (foc, models.Scale(0.5) & models.Scale(3.0)), (out, None)])
+    w.bounding_box = ((0, 8), (0, 6))
+    hist, problems = [], []
+
+    def queries(o):
+        r = {"axis_correlation_matrix": np.asarray(o.axis_correlation_matrix).tolist(), "call": np.asarray(o(2.0, 3.0)).tolist(),
+             "invert": np.asarray(o.invert(*o(2.0, 3.0))).tolist(), "str": str(o)}
+        try:
+            hdr, hdus = o.to_fits(sampling=2)
+            r["to_fits"] = ([k for k in hdr.keys() if k.startswith(("CTYPE", "PS", "PV"))], [h.data["coordinates"].shape for h in hdus])
+        except Exception as e:  # noqa
+            r["to_fits"] = "raised " + type(e).__name__
+        return r
+    queries(w)                 # every derived answer has been asked for once in the separable state
+    for step_i in range(nops if script is None else len(script)):
+        e = script[step_i] if script is not None else rng.choice(SEP_EDITS + ["query"])
+        if e == "rotate":
+            w.insert_transform(rng.choice(["focal", "world"]), models.Rotation2D(rng.choice([30.0, 90.0, 45.0])), after=False)
+        elif e == "swap":
+            w.insert_transform("focal", models.Mapping((1, 0)), after=rng.random() < 0.5)
+        elif e == "shift":
+            w.insert_transform("focal", models.Shift(0.25) & models.Shift(-1.0), after=True)
+        elif e == "set_separable":
+            w.set_transform(w.available_frames[0], w.available_frames[1], models.Shift(3.0) & models.Scale(2.0))
+        elif e == "set_coupled":
+            w.set_transform(w.available_frames[0], w.available_frames[1],
+                            models.AffineTransformation2D(matrix=[[1.0, 0.5], [0.25, 2.0]], translation=[1.0, 2.0]))
+        elif e == "insert_frame":
+            nm = f"extra{len(w.available_frames)}"
+            w.insert_frame(w.available_frames[0], models.Rotation2D(60.0) if rng.random() < 0.5 else models.Shift(1.0) & models.Shift(1.0),
+                           cf.CoordinateFrame(2, ("SPATIAL",) * 2, (0, 1), unit=(u.mm,) * 2, name=nm))
+        hist.append(e)
+        if e in ("rotate", "swap", "set_coupled", "set_separable", "insert_frame") and w.bounding_box is None:
+            w.bounding_box = ((0, 8), (0, 6))
+        t = twin_of(w)
+        a, b = queries(w), queries(t)
+        for k in a:
+            same = a[k] == b[k] if k != "call" and k != "invert" else np.allclose(a[k], b[k], rtol=0, atol=1e-9, equal_nan=True)
+            if not same:
+                problems.append((f"after {hist[-3:]} the answer of `{k}` is {str(a[k])[:120]} but a freshly built twin gives {str(b[k])[:120]}", list(hist)))
+                break
+    return hist, problems
+
+
 def unit_history(ctx, rng, nq):
     """a unit-carrying WCS whose bounding box is given as Quantities: every query is compared with a freshly built twin and the stored
     box (types included: repr) must be what it was before the query"""
@@ -395,6 +452,15 @@ def run(ctx):
     for _ in range(nh):
         hist, problems, nontriv = run_history(ctx, rng, rng.randint(6, 14))
         ctx.case(key=tuple(hist), nontrivial=nontriv, kind=f"len{len(hist)}", sample={"history": hist[:8]})
+        allprob += [(p[0], p[1], None) for p in problems[:1]]
+    for e1 in SEP_EDITS:        # every ordered pair of edits, from a WCS whose derived answers were all asked for before
+        for e2 in SEP_EDITS:
+            hist, problems = separable_history(ctx, rng, 2, script=[e1, e2])
+            ctx.case(key=("separable-pair", e1, e2), nontrivial=True, kind="separability", sample={"history": hist})
+            allprob += [(p[0], p[1], None) for p in problems[:1]]
+    for _ in range(4 if ctx.quick else 100):
+        hist, problems = separable_history(ctx, rng, rng.randint(3, 8))
+        ctx.case(key=("separable",) + tuple(hist), nontrivial=True, kind="separability", sample={"history": hist})
         allprob += [(p[0], p[1], None) for p in problems[:1]]
     for _ in range(6 if ctx.quick else 60):
         hist, problems = unit_history(ctx, rng, rng.randint(4, 9))
